@@ -16,22 +16,45 @@ class Q:
     def pick(self, xs):
         return self.r.choice(xs)
 
+    all = None
+
+    def all_refs(self):
+        """the union analysis: clause after clause within a branch, branch after branch"""
+        if self.all is not None:
+            return self.all
+        out = []
+        for c in ("select", "join", "where", "group_by", "having", "order_by"):
+            out += self.cols[c]
+        return out
+
     def col(self, quals):
         """a column reference and what it must be reported as"""
         name = self.pick(["a", "b", "c", "d", "k", "amount", "user_id"])
         if quals and self.r.random() < 0.5:
             q = self.pick(quals)
-            return "%s.%s" % (q, name), [(q, name, None)]
-        return name, [(None, name, None)]
+            if self.r.random() < 0.06:
+                name = self.pick(["CURRENT_DATE", "CURRENT_TIMESTAMP", "CURRENT_TIME"])      # a real column of that name: qualified, hence not the variable
+            return "%s.%s" % (q, name if self.r.random() < 0.8 else "`%s`" % name), [(q, name, None)]
+        return (name if self.r.random() < 0.85 else "`%s`" % name), [(None, name, None)]
 
     def table_ref(self, sink):
         """a base table with optional schema / alias; sink lists collect (schema, table)"""
-        t = self.pick(["t1", "t2", "orders", "users", "ev"])
-        s = self.pick([None, None, "db", "ods"])
+        t = self.pick(["t1", "t2", "orders", "users", "ev", "ev.v2"])
+        s = self.pick([None, None, "db", "ods", "my-project.sales"])
+        if "." in t and s is None:
+            s = "dw"                                   # a dotted table part needs its own quotes and a schema part
         for lst in sink:
             lst.append((s, t))
         alias = self.pick([None, None, "x1", "y2"])
-        text = ("%s.%s" % (s, t) if s else t) + (" AS " + alias if alias and self.r.random() < 0.5 else (" " + alias if alias else ""))
+        if s is None:
+            name = t if self.r.random() < 0.8 else "`%s`" % t
+        elif "." in s or "." in t or "-" in s:
+            name = "%s.%s" % ("`%s`" % s if ("." in s or "-" in s or self.r.random() < 0.3) else s, "`%s`" % t if ("." in t or self.r.random() < 0.3) else t)
+        else:
+            name = self.pick(["%s.%s", "`%s`.`%s`", "`%s.%s`", "%s.`%s`"]) % (s, t)
+        if "." in t and alias is None:
+            alias = "x1"                               # the visible name of a dotted table is given by an alias here
+        text = name + (" AS " + alias if alias and self.r.random() < 0.5 else (" " + alias if alias else ""))
         return text, alias or t
 
     def sub(self, sink):
@@ -127,7 +150,7 @@ class Q:
             e, ce = self.expr(quals)
             alias = self.pick([None, None, "al%d" % i])
             self.items.append((alias, ce))
-            item_texts.append(e + (" AS " + alias if alias else ""))
+            item_texts.append(e + (self.pick([" AS %s", " %s", " `%s`", " AS `%s`", " as %s"]) % alias if alias else ""))
             self.cols["select"] += ce
         if r.random() < 0.15:
             q = self.pick(quals)
@@ -154,12 +177,19 @@ class Q:
             self.cols["group_by"] = gc
             if r.random() < 0.5:
                 c, cc = self.cond_simple(quals, with_alias=True)
+                if self.depth > 0 and r.random() < 0.2:
+                    a, ca = self.col(quals)
+                    c += " AND %s IN (%s)" % (a, self.sub([self.tables_all]))
+                    cc = cc + ca
                 text += " HAVING " + c
                 self.cols["having"] = cc
         if r.random() < 0.4:
             os_, oc = [], []
             for _ in range(self.pick([1, 2])):
-                t, cc = self.ref_item(quals)
+                if self.depth > 0 and r.random() < 0.15:
+                    t, cc = "(" + self.sub([self.tables_all]) + ")", []
+                else:
+                    t, cc = self.ref_item(quals)
                 os_.append(t + self.pick(["", " DESC", " ASC"]))
                 oc += cc
             text += " ORDER BY " + ", ".join(os_)
@@ -192,6 +222,22 @@ class Q:
 
 
 def gen(rng, depth=2):
+    k = rng.random()
+    if k < 0.2:
+        # compound query: the analyses report branch after branch (no WITH here: see the known finding on WITH + UNION)
+        q = Q(rng, depth)
+        text = q.build(top=False)
+        for _ in range(rng.choice([1, 1, 2])):
+            q2 = Q(rng, max(0, depth - 1))
+            t2 = q2.build(top=False)
+            text += " " + rng.choice(["UNION", "UNION ALL", "EXCEPT", "INTERSECT", "MINUS"]) + " " + ("(" + t2 + ")" if rng.random() < 0.3 and " ORDER BY " not in t2 else t2)
+            q.tables_all += q2.tables_all
+            q.tables_from += q2.tables_from
+            q.tables_join += q2.tables_join
+            q.all = q.all_refs() + q2.all_refs()
+            for c in q.cols:
+                q.cols[c] = q.cols[c] + q2.cols[c]
+        return text, q
     q = Q(rng, depth)
     text = q.build(top=True)
     return text, q
